@@ -96,7 +96,7 @@ func (CrashScenario) GenCase(r *rand.Rand, prop string) interface{} {
 		default:
 			op.Kind = "restart"
 		}
-		if k := op.Kind; (k == "create" || k == "update" || k == "delete") && chance(r, 8) {
+		if k := op.Kind; (k == "create" || k == "update" || k == "delete" || k == "init") && chance(r, 8) {
 			op.CommitErr = true
 		}
 		if k := op.Kind; k == "update" || k == "delete" {
@@ -397,9 +397,23 @@ func (CrashScenario) Execute(sim *sched.Sim, ci interface{}, prop string, race b
 					})
 				}
 				cr.fl = &flight{kind: "init"}
+				failCommit = op.CommitErr
 				err := cr.st.Init(cr.seedsCB)
+				failCommit = false
+				refused := commitFired
+				if commitFired {
+					commitFired = false
+					commitErrs++
+					h.Evals++
+					if err == nil {
+						h.Violate("C12", "failed-commit-acknowledged", "init", "Init returned success although its commit was refused")
+					}
+				}
 				if err == nil {
 					cr.noteInit()
+				} else if refused {
+					// the disk refused Init's commit: nothing was seeded
+					sim.Probe("crash.init-commit-refused")
 				} else if raced && errors.Is(err, badger.ErrConflict) {
 					// the racing Create committed between Init's look at
 					// the id and Init's commit: Init has done nothing
